@@ -232,6 +232,28 @@ A14 == E("A14", "args",
         dF("two", <<dA("a", VVar("i"))>>, <<>>)>>),
   << <<>>, <<V("i", VI(2)), V("s", VO(<<"z">>, <<VI(4)>>)), V("l", VL(<<VI(7), VNull>>))>>, <<V("j", VI(9)), V("s", VO(<<>>, <<>>))>> >>)
 
+\* equal literals at argument positions whose types differ only in nullability (scalar, list, input object; both orders)
+A15 == E("A15", "args",
+  dQ(<<dF("i", <<dA("x", VI(1))>>, <<>>), dF("iN", <<dA("x", VI(1))>>, <<>>),
+       dFA("iN2", "iN", <<dA("x", VI(2))>>, <<>>), dFA("i2", "i", <<dA("x", VI(2))>>, <<>>),
+       dF("li", <<dA("x", VL(<<VI(3)>>))>>, <<>>), dF("lin", <<dA("x", VL(<<VI(3)>>))>>, <<>>),
+       dFA("lin2", "lin", <<dA("x", VL(<<VI(4)>>))>>, <<>>), dFA("li2", "li", <<dA("x", VL(<<VI(4)>>))>>, <<>>),
+       dF("o", <<dA("x", VO(<<"a">>, <<VI(5)>>))>>, <<>>), dF("oN", <<dA("x", VO(<<"a">>, <<VI(5)>>))>>, <<>>),
+       dFA("oN2", "oN", <<dA("x", VO(<<"a">>, <<VI(6)>>))>>, <<>>), dFA("o2", "o", <<dA("x", VO(<<"a">>, <<VI(6)>>))>>, <<>>),
+       dF("lo", <<dA("x", VL(<<VO(<<"a">>, <<VI(7)>>)>>))>>, <<>>), dF("lon", <<dA("x", VL(<<VO(<<"a">>, <<VI(7)>>)>>))>>, <<>>),
+       dFA("lon2", "lon", <<dA("x", VL(<<VO(<<"a">>, <<VI(8)>>)>>))>>, <<>>), dFA("lo2", "lo", <<dA("x", VL(<<VO(<<"a">>, <<VI(8)>>)>>))>>, <<>>)>>),
+  <<<<>>>>)
+
+\* variables named like canonical names, used only two or more levels deep in a directive-argument literal
+\* (object in object, list in object, list in list in object)
+A16 == E("A16", "args",
+  dQV(<<dVar("a", NN(Ty("Int")), Absent), dVar("b", Ty("Int"), Absent)>>,
+      <<dFD("i", <<dA("x", VI(5))>>, <<dDir("lim", <<dA("by", VO(<<"a", "d", "c">>, <<VI(1), VO(<<"a">>, <<VVar("a")>>), VL(<<VVar("a")>>)>>))>>)>>, <<>>),
+        dFD("s", <<dA("x", VS("k"))>>, <<dDir("lim", <<dA("by", VO(<<"a", "g", "d">>, <<VI(2), VL(<<VL(<<VVar("b")>>)>>),
+                                                                                   VO(<<"a", "d">>, <<VI(3), VO(<<"a", "g">>, <<VI(4), VL(<<VL(<<VVar("b")>>)>>)>>)>>)>>))>>)>>, <<>>),
+        dF("f", <<dA("x", VF("1.5"))>>, <<>>)>>),
+  << <<V("a", VI(9)), V("b", VI(8))>>, <<V("a", VI(7))>> >>)
+
 \* a variable named like a canonical name, nested in a literal of a directive argument
 A13 == E("A13", "args",
   dQV(<<dVar("a", Ty("Int"), Absent)>>,
@@ -323,7 +345,7 @@ V3 == E("V3", "nest",
 CorpusV == <<V1, V2, V3>>
 
 Corpus == <<P1, P2, P3, P4, P5, P6, P7, P8, P9, P10, P11, P12, P13, P14, P15, P16, P17,
-            A1, A2, A3, A4, A5, A6, A7, A8, A9, A10, A11, A12, A13, A14,
+            A1, A2, A3, A4, A5, A6, A7, A8, A9, A10, A11, A12, A13, A14, A15, A16,
             N1, N2, N3, N4, N5, N6,
             D1, D2, D3>>
 =============================================================================
